@@ -70,6 +70,8 @@ LOCI = {
                   ("T11", "G1", "-", [(1003, 1200), (2000, 2150), (3000, 3297)])],
     "micro_exon": [("T1", "G1", "+", [(1000, 1200), (2000, 2020), (3000, 3300)]),
                    ("T2", "G1", "+", [(1000, 1200), (3000, 3300)])],
+    "alt_site_tie": [("T1", "G1", "+", [(1000, 1200), (2000, 2150), (3000, 3300)]),
+                     ("T12", "G1", "+", [(1000, 1200), (2000, 2154), (3002, 3300)])],
     "short_last": [("T1", "G1", "+", [(1000, 1200), (2000, 2900), (3400, 3460)])],
     "short_first": [("T1", "G1", "-", [(1000, 1060), (2000, 2900), (3400, 3700)])],
 }
